@@ -5,7 +5,7 @@ import (
 	"sync"
 )
 
-//verif:entry property=C07 tier=both bounds="one Sequential handler (enter; yield; exit; the first invocation may panic), optionally behind a Once handler, and G concurrent synchronous publishers of one event each (typed or through Publish[any]), whose contexts the running invocation may cancel; every interleaving within the preemption bound" cover="done" G_quick=2 G_thorough=3 preempt_quick=2 preempt_thorough=2 race=on
+//verif:entry property=C07 tier=both bounds="one Sequential handler (plain or context-aware; enter; yield; exit; the first invocation may panic), optionally behind a Once handler, and G concurrent synchronous publishers of one event each (typed or through Publish[any]), whose contexts the running invocation may cancel; every interleaving within the preemption bound" cover="done" G_quick=2 G_thorough=3 preempt_quick=2 preempt_thorough=2 race=on
 func harnessC07NoOverlapSync() { c07NoOverlapSync(vParam("G", 2)) }
 
 //verif:entry property=C07 tier=thorough bounds="as above with 2 concurrent publishers and up to 3 preemptions" cover="done" preempt=3 race=on
@@ -30,7 +30,7 @@ func c07NoOverlapSync(G int) {
 	for g := 0; g < G; g++ {
 		ctxs[g], cancels[g] = context.WithCancel(context.Background())
 	}
-	Subscribe(bus, func(e evA) {
+	body := func(e evA) {
 		mu.Lock()
 		inside++
 		if inside > maxInside {
@@ -53,7 +53,13 @@ func c07NoOverlapSync(G int) {
 		if boom {
 			panic("first invocation fails")
 		}
-	}, Sequential())
+	}
+	if vBool() {
+		// a context-aware handler: still one invocation at a time, whatever happens to its context
+		SubscribeContext(bus, func(hc context.Context, e evA) { body(e) }, Sequential())
+	} else {
+		Subscribe(bus, body, Sequential())
+	}
 	var wg sync.WaitGroup
 	for g := 0; g < G; g++ {
 		wg.Add(1)
@@ -199,5 +205,45 @@ func harnessC07SelfPublish() {
 	bus.Wait()
 	vAssert(maxInside <= 1, "sequential-invocations-never-overlap")
 	vAssert(seen[1] == 1 && seen[2] == 1, "each-event-exactly-once")
+	vCover("done")
+}
+
+//verif:entry property=C07 tier=both bounds="a Sequential handler (plain or context-aware) being subscribed by one goroutine while two others publish; every interleaving within the preemption bound; from its first invocation on, never two at a time (race monitor on)" cover="done" preempt_quick=2 preempt_thorough=3 race=on
+func harnessC07SubscribeWhilePublishing() {
+	bus := New()
+	var mu sync.Mutex
+	inside, maxInside := 0, 0
+	body := func() {
+		mu.Lock()
+		inside++
+		if inside > maxInside {
+			maxInside = inside
+		}
+		mu.Unlock()
+		vYield()
+		mu.Lock()
+		inside--
+		mu.Unlock()
+	}
+	ctxAware := vBool()
+	var wg sync.WaitGroup
+	wg.Add(3)
+	go func() {
+		defer wg.Done()
+		if ctxAware {
+			vAssert(SubscribeContext(bus, func(hc context.Context, e evA) { body() }, Sequential()) == nil, "subscribe-ok")
+		} else {
+			vAssert(Subscribe(bus, func(e evA) { body() }, Sequential()) == nil, "subscribe-ok")
+		}
+	}()
+	for g := 0; g < 2; g++ {
+		n := g
+		go func() {
+			defer wg.Done()
+			Publish(bus, evA{N: n})
+		}()
+	}
+	wg.Wait()
+	vAssert(maxInside <= 1, "sequential-invocations-never-overlap")
 	vCover("done")
 }
